@@ -181,7 +181,7 @@ func init() {
 	register(&Plan{
 		Prop:  "C12",
 		Level: "exploration",
-		Rule: "matrix: the complete product {7 entry-point families that can carry the severity: verb, Context verb, LogAttrs, Logit, Log(log/slog level), package verb, package Context verb} x {Panic, Fatal} x {no-interrupt flag} x {interrupt-always flag} x {production, under-go-test process} x {admitted, denied by an Off logger, denied by the level threshold (a Panic-level logger and a Fatal record)} x {json, logfmt, color} x {root, child | default} = 1440 cells (package functions only exist for the default logger), plus 192 cells with a 1100-item argument list, 240 cells in a production process that carries an argument starting with -bench and 384 cells in which the two flags got their values through another idiom (SetFlags; a SaveFlagsAndMod window that is still open; the opposite values inside a SaveFlagsAndMod window whose restore closure has run), 192 cells whose destination stores the record and then reports an error and 192 cells with registered context keys and a nil context = 2640 cells; " +
+		Rule: "matrix: the complete product {7 entry-point families that can carry the severity: verb, Context verb, LogAttrs, Logit, Log(log/slog level), package verb, package Context verb} x {Panic, Fatal} x {no-interrupt flag} x {interrupt-always flag} x {production, under-go-test process} x {admitted, denied by an Off logger, denied by the level threshold (a Panic-level logger and a Fatal record)} x {json, logfmt, color} x {root, child | default} = 1440 cells (package functions only exist for the default logger), plus 192 cells with a 1100-item argument list, 240 cells in a production process that carries an argument starting with -bench and 384 cells in which the two flags got their values through another idiom (SetFlags; a SaveFlagsAndMod window that is still open; the opposite values inside a SaveFlagsAndMod window whose restore closure has run), 192 cells whose destination stores the record and then reports an error 192 cells with registered context keys and a nil context, and 320 cells in which the package level was set to Off before the logger became the default one (package entry points), os.Args is rewritten at run time (go test processes) or a per-level writer for the severity was added and removed again = 2960 cells; " +
 			"each cell is ONE child process built from the tree performing ONE call with an unbuffered file as destination; the parent observes exit status, the recovered panic value and the file. thorough = all cells, quick = every 8th cell of the base matrix starting at VERIF_SEED mod 8 (all 8 quick seeds together cover it) and every 2nd of the extra cells. " +
 			"negative: 8 probe processes (mode x flags) issue every other severity through every entry point (~350 calls each) and must survive. non-trivial = every judged cell; distinct = by cell",
 		Assumptions: []string{"a record present in the unbuffered file was written before the process terminated", "a 60 s watchdog per probe process; a timeout is inconclusive"},
@@ -190,13 +190,13 @@ func init() {
 		Jobs: func(tier string, seed int64) []Job {
 			var js []Job
 			if tier == "thorough" {
-				js = chunk("matrix", "prod", 2640, 165, Job{Timeout: 30 * time.Minute})
+				js = chunk("matrix", "prod", 2960, 185, Job{Timeout: 30 * time.Minute})
 			} else {
 				off := int(((seed % 8) + 8) % 8)
 				for i := off; i < 1440; i += 8 {
 					js = append(js, Job{Sub: "matrix", Mode: "prod", From: i, To: i + 1, Timeout: 10 * time.Minute})
 				}
-				for i := 1440 + off%2; i < 2640; i += 2 { // the extra cells (huge argument lists, -bench argument) are sampled more densely
+				for i := 1440 + off%2; i < 2960; i += 2 { // the extra cells (huge argument lists, -bench argument) are sampled more densely
 					js = append(js, Job{Sub: "matrix", Mode: "prod", From: i, To: i + 1, Timeout: 10 * time.Minute})
 				}
 				// group them: one job per 16 cells
@@ -229,7 +229,7 @@ func init() {
 	register(&Plan{
 		Prop:  "C14",
 		Level: "exploration",
-		Rule: "the complete matrix {81 call sites: 30 native verbs/Context verbs/LogAttrs/Logit/Log/printf verbs, 24 package-level functions, 5 Println forms whose first argument is not a string (native and package-level), 6 application-side facades whose type/package names collide with library or std names (applog.(*Logger).Infof/Warnf/Println over the std log bridge, a facade package named slog with a type Entry and a method logContext over the native API; the record is attributed skip minus facade depth frames above the call statement), 5 sites that also log an error carrying its own stack trace (errors.v3), 6 log/slog adapter forms (Logger.Info/WarnContext/Log/LogAttrs, With(..).Info, slog.Info after SetDefault), 4 std log bridge forms (Print/Printf/Println/Output)} x {json, logfmt, color} x {skip 0..4 set by WithSkip or SetSkip, with a wrapper chain of matching depth} x " +
+		Rule: "the complete matrix {84 call sites (3 of them printf verbs with %w / several verbs / none): 30 native verbs/Context verbs/LogAttrs/Logit/Log/printf verbs, 24 package-level functions, 5 Println forms whose first argument is not a string (native and package-level), 6 application-side facades whose type/package names collide with library or std names (applog.(*Logger).Infof/Warnf/Println over the std log bridge, a facade package named slog with a type Entry and a method logContext over the native API; the record is attributed skip minus facade depth frames above the call statement), 5 sites that also log an error carrying its own stack trace (errors.v3), 6 log/slog adapter forms (Logger.Info/WarnContext/Log/LogAttrs, With(..).Info, slog.Info after SetDefault), 4 std log bridge forms (Print/Printf/Println/Output)} x {json, logfmt, color} x {skip 0..4 set by WithSkip or SetSkip, with a wrapper chain of matching depth} x " +
 			"{root held as Logger interface, root as *Entry, child | default logger for package functions} x {inlinable, noinline wrappers; direct chains and closure chains}. Each call site is a one-line function literal that also records its own logical call stack (runtime.CallersFrames) and is executed TWICE in a row (a second record from the same statement must be attributed like the first); a WithSkip child is used only after a sibling with another skip count was derived from the same parent; " +
 			"the caller decoded from the record (file made absolute, line, function) must equal the frame `skip` logical frames above the call statement. thorough additionally builds the workload with -gcflags=all=-l. non-trivial = confirmed attribution; distinct = by cell",
 		Assumptions: []string{"runtime.CallersFrames over a 16-slot Callers buffer gives the true logical stack at the call site", "privacy path flags are off so that the reported file can be compared (C18 covers them)"},
@@ -237,10 +237,10 @@ func init() {
 		Exhaustive:  func(string) bool { return true },
 		NoInline: true,
 		Jobs: func(tier string, seed int64) []Job {
-			js := chunk("sites", "prod", 5000, 320, Job{Timeout: 20 * time.Minute})
+			js := chunk("sites", "prod", 5300, 340, Job{Timeout: 20 * time.Minute})
 			if tier == "thorough" {
-				js = append(js, chunk("sites", "prod", 5000, 320, Job{NoInl: true, Args: []string{"-x", "build=noinline"}, Timeout: 20 * time.Minute})...)
-				js = append(js, chunk("sites", "test", 5000, 320, Job{Timeout: 20 * time.Minute})...)
+				js = append(js, chunk("sites", "prod", 5300, 340, Job{NoInl: true, Args: []string{"-x", "build=noinline"}, Timeout: 20 * time.Minute})...)
+				js = append(js, chunk("sites", "test", 5300, 340, Job{Timeout: 20 * time.Minute})...)
 			}
 			return js
 		},
